@@ -15,11 +15,12 @@ func init() {
 		Entries: []Entry{
 			{PkgPath: diskPkg, Func: "verifC11Reopen", Opt: big},
 			{PkgPath: diskPkg, Func: "verifC11PriorImage", Opt: big},
+			{PkgPath: diskPkg, Func: "verifC11Generations", Opt: big},
 			{PkgPath: diskPkg, Func: "verifC11Faults", Opt: big, Replay: "model"},
 			{PkgPath: diskPkg, Func: "verifC11BarrierDurable", Opt: big, Replay: "model"},
 			{PkgPath: diskPkg, Func: "verifC11PersistentFailure", Opt: big, Replay: "model"},
 		},
-		Covers: []string{"c11/reopen", "c11/prior-image", "c11/fault/open", "c11/fault/write", "c11/fault/read",
+		Covers: []string{"c11/reopen", "c11/prior-image", "c11/generations", "c11/fault/open", "c11/fault/write", "c11/fault/read",
 			"c11/fault/barrier", "c11/fault/close", "c11/fault/none", "c11/barrier-durable", "c11/persistent-failure"},
 		Bounds: "n ≤ 3 blocks; all block contents; prior image: every length L < 2^62 (symbolic) with symbolic content in its first 8193 bytes, n ≤ 2 requested blocks; faults: every single failing syscall (EIO) among open/fstat/ftruncate/pwrite/pread/fsync/close in the sequence open·write·read·barrier·close; crash after Write·Barrier with an arbitrary durable prefix of later writes",
 		Assumptions: []string{
